@@ -268,7 +268,7 @@ def classify(case, o):
 # ---- C: other uses of a snapshot that holds user-controlled parts: never compared, membership, sub-snapshots in loops
 def gen_usage(rng, i):
     kind = ["never", "in", "getitem_loop", "never", "in_nested", "bound_nested", "bound_fstring", "getitem_star", "star_nested",
-            "in_star", "star_loop", "equal_other_spelling", "call_hidden_kw", "inner_field", "fstring_nofield"][i % 15]
+            "in_star", "star_loop", "equal_other_spelling", "call_hidden_kw", "inner_field", "fstring_nofield", "never_factory"][i % 16]
     g = G(rng, agree=True)
     flags = tuple(rng.choice(proggen.flag_subsets()))
     if kind == "never":
@@ -392,6 +392,15 @@ def gen_usage(rng, i):
             body = cls + f"EMPTY = ''\n\n\ndef test_a():\n    R = HD({a_new}) == snapshot(HD(a={a_old}, b=Is(EMPTY)))\n"
             g.snips.append("Is(EMPTY)")
         allowed = set()
+    elif kind == "never_factory":
+        # a never-compared snapshot whose argument calls a function that is NOT the constructor of the value it returns: its arguments are no fields,
+        # nothing in the call is inline-snapshot's to rewrite (the call as a whole is the user's)
+        txt = rng.choice(["make(a=1)", "make(1+0)", "[make(a=1), 0+2]", "{'k': make(a=0+1)}", "DC.make(a=1)", "make_dc(a=[1+1], b=2)"])
+        body = ("def make(a):\n    return DC(a=a * 2)\n\n\ndef make_dc(a, b):\n    return DC(a=b, b=a)\n\n\nDC.make = staticmethod(make)\n\n\n"
+                f"S = snapshot({txt})\n\n\ndef test_a():\n    pass\n")
+        import re as _re
+        g.snips += _re.findall(r"(?:DC\.)?make(?:_dc)?\([^()]*\)", txt)
+        allowed = set()
     elif kind == "fstring_nofield":
         # f-strings without replacement fields (f'ready', f'{{}}') at any depth: they are f-strings all the same and stay the user's, equal or not
         txt = rng.choice(["f'ready'", "f'{{}}'", 'f"it\'s"', "f'a' f'b'"])
@@ -424,7 +433,7 @@ def gen_usage(rng, i):
         inner = {"tags": (tags_old, tags_new), "n": (n_old, n_new)}
     elif kind == "getitem_star":
         # a dict display holding a star-expression, used with [key]
-        base = rng.choice(["{}", "{'z': 0}"])
+        base = rng.choice(["{}", "{'z': 0}", "{'z': 0, 'y': 1}", "{'z': 0, 'y': 1, 'x': 2}"])
         val = rng.randint(0, 9)
         cur = rng.choice([val, val + 1])
         body = f"BASE = {base}\n\n\ndef test_a():\n    s = snapshot({{**BASE, 'k': {cur}}})\n    R = s['k'] == {val}\n"
@@ -619,7 +628,7 @@ def run(ctx: Ctx):
     ctx.coverage["oracle"]["cases"] = m
     ctx.sample({"test": cases[0]["source"].split("def test_a")[1], "unmanaged": cases[0]["snips"], "after_arg": outs[0].get("arg")})
     # C
-    mu = 360 if not ctx.thorough else 3600
+    mu = 384 if not ctx.thorough else 3840
     ucases = [gen_usage(ctx.rng, i) for i in range(mu)]
     uouts = pmap(run_usage, ucases, chunksize=8)
     for c, o in zip(ucases, uouts):
